@@ -65,6 +65,7 @@ extern long al_libc_malloc_calls, al_libc_free_calls, al_libc_realloc_calls;   /
 void *al_malloc(size_t n);     /* installed as cJSON hook: counts, may fail */
 void  al_free(void *p);
 void *al_raw(size_t n);        /* driver-side allocation of a block that the library will own (no counting/failing) */
+unsigned long vd_salt(void);   /* content hash of the current case */
 void  al_case_begin(void);     /* forget all blocks of the previous case */
 blk  *al_find(const void *p);  /* block whose payload starts at p, or NULL */
 int   al_is_live(const void *p);
